@@ -27,7 +27,8 @@ def concretise(c, rnd):
         ddx = (e1["x1"] + e1["x2"]) / 2 - (rb["x1"] + rb["x2"]) / 2
         ddy = (e1["y1"] + e1["y2"]) / 2 - (rb["y1"] + rb["y2"]) / 2
         a_pos = rnd.choice([f'xy="#r|{c["d1"]} {g}"', f'cxy="#r@c {q(ddx)} {q(ddy)}"', f'cxy="#r {q(ddx)} {q(ddy)}"'])
-        els = [r, f'<rect id="a" {a_pos} wh="2 1"/>', None]
+        a_size = rnd.choice(['wh="2 1"', 'width="2" height="1"'])   # (a native size makes a half-evaluated box possible)
+        els = [r, f'<rect id="a" {a_pos} {a_size}/>', None]
         order = rnd.choice([(0, 1, 2), (0, 1, 2), (2, 1, 0), (1, 0, 2), (2, 0, 1), (0, 2, 1), (1, 2, 0)])
         second_ref = rnd.choice(["#a", "^"]) if order == (0, 1, 2) else "#a"
         els[2] = f'<rect id="s" xy="{second_ref}|{c["d2"]} {g}" wh="1 3"/>'
